@@ -308,7 +308,10 @@ func driveRetainAcrossReads(c *driverCtx, run int) {
 	abortAt := c.rng.Intn(n)
 	closeBefore := run%2 == 0
 	key := fmt.Sprintf("C10|retain-after-abort|%s|B%d|close%v", codec, cfg.Block, closeBefore)
-	inputs := make([]any, 0, 2*n)
+	inputs := make([]any, 0, 2*n+1)
+	if !closeBefore {
+		inputs = append(inputs, projectValue(vals[abortAt])) // the record kept from the aborted read comes first
+	}
 	for _, vs := range [][]reflect.Value{vals, vals2} {
 		for _, v := range vs {
 			inputs = append(inputs, projectValue(v))
@@ -316,12 +319,23 @@ func driveRetainAcrossReads(c *driverCtx, run int) {
 	}
 	sentinel := fmt.Errorf("stop here")
 	seen := 0
+	type kept struct {
+		v      reflect.Value
+		bank   *avro.ResourceBank
+		closed bool
+	}
+	var ks []*kept
 	pan := catch(func() {
 		avro.ReadFile(bytes.NewReader(w.out), reflect.New(st.typ).Elem().Interface(), func(val unsafe.Pointer, rb *avro.ResourceBank) error {
 			seen++
 			if seen-1 == abortAt {
 				if closeBefore {
 					rb.Close()
+				} else {
+					// "found it": the record and its bank are kept, reading stops
+					cp := reflect.New(st.typ).Elem()
+					cp.Set(reflect.NewAt(st.typ, val).Elem())
+					ks = append(ks, &kept{v: cp, bank: rb})
 				}
 				return sentinel
 			}
@@ -329,12 +343,6 @@ func driveRetainAcrossReads(c *driverCtx, run int) {
 			return nil
 		})
 	})
-	type kept struct {
-		v      reflect.Value
-		bank   *avro.ResourceBank
-		closed bool
-	}
-	var ks []*kept
 	var checkpoints []any
 	checkpoint := func(after string) {
 		var idx, ids []int
